@@ -410,6 +410,15 @@ func c12Natives() []c12Val {
 			add(map[string]interface{}{"m": mi, "n": []interface{}{mf}}, spec.O(spec.P("m", spec.O(wi...)), spec.P("n", spec.L(spec.O(wf...)))), "nested-map")
 		}
 	}
+	// typed nil slices/maps of the supported flavours are empty slices/maps: they become fresh empty containers
+	add([]string(nil), spec.L(), "typed-nil-supported")
+	add([]interface{}(nil), spec.L(), "typed-nil-supported")
+	add([]float64(nil), spec.L(), "typed-nil-supported")
+	add([]at.Object(nil), spec.L(), "typed-nil-supported")
+	add(map[string]interface{}(nil), spec.O(), "typed-nil-supported")
+	add(map[string]int(nil), spec.O(), "typed-nil-supported")
+	add(map[string]at.List(nil), spec.O(), "typed-nil-supported")
+	add([]interface{}{[]string(nil), map[string]bool(nil)}, spec.L(spec.L(), spec.O()), "typed-nil-supported")
 	// nil interface values inside the typed container flavours (and inside []any / map[string]any): a nil is the nil kind
 	wo1, wl1 := spec.O(spec.P("x", spec.I(1))), spec.L(spec.I(2))
 	add([]at.Object{nil}, spec.L(spec.NilV), "slice-Object-nil")
@@ -431,7 +440,8 @@ func c12Unsupported() []c12Val {
 	for _, u := range []struct {
 		v  interface{}
 		cl string
-	}{{struct{}{}, "struct"}, {time.Time{}, "time.Time"}, {&x, "*int"}, {[]int8{1}, "[]int8"}, {[]uint{1}, "[]uint"}, {map[int]string{1: "a"}, "map[int]string"},
+	}{{(*int)(nil), "nil-*int"}, {(func())(nil), "nil-func"}, {(chan int)(nil), "nil-chan"}, {[]int32(nil), "nil-[]int32"}, {map[int]string(nil), "nil-map[int]string"}, {(*time.Time)(nil), "nil-*time.Time"},
+		{[]interface{}{(*int)(nil)}, "[]any-with-nil-*int-inside"}, {struct{}{}, "struct"}, {time.Time{}, "time.Time"}, {&x, "*int"}, {[]int8{1}, "[]int8"}, {[]uint{1}, "[]uint"}, {map[int]string{1: "a"}, "map[int]string"},
 		{map[string]uint8{"a": 1}, "map[string]uint8"}, {[2]int{1, 2}, "[2]int"}, {make(chan int), "chan"}, {func() {}, "func"}, {complex(1, 2), "complex128"},
 		{uintptr(7), "uintptr"}, {myInt(3), "named-int"}, {myStr("s"), "named-string"}, {json.Number("1"), "json.Number"}, {[]interface{}{1, struct{}{}}, "[]any-with-struct-inside"},
 		{map[string]interface{}{"a": []interface{}{complex64(1)}}, "map-with-complex-inside"}, {int8(1) == 1 && false || true && false, ""}} {
